@@ -6,6 +6,8 @@ Driver for stream `witness` (C15). One op per line, one observation per line.
   mt <cond>                        -> one char per context of the table: 1 | 0 | e   (`matchC`)
   cw <hash> <env> <signers>        -> true | false | err:nosigners | err:noreadstates   (`checkWitness`)
   dec <depth> <hex>                -> ok <cond> <rest-hex> | err      (`decodeCond` with maxDepth = depth)
+  decs <hex>                       -> ok <signer> <rest-hex> | err    (`decodeSigner`; signer printed with full-width hashes)
+  adm <depth> <cond>               -> ok | err                         (`admit`: the JSON / stack-item decoders)
 
 Token grammar (prefix form, blank separated; hashes and keys are hex numbers):
   cond    := B0 | B1 | N cond | A n cond^n | O n cond^n | H hash | G key | E | C hash | K key
@@ -137,6 +139,16 @@ def decKeyCompressed (bs : Bytes) : Option (Key × Bytes) :=
     if p = 0x02 ∨ p = 0x03 then (Wire.takeN 33 bs).map fun (x, r) => (beVal x, r)
     else none
 
+def showRules : List Rule → String
+  | [] => ""
+  | r :: rs => s!" {r.action} " ++ showCond r.cond ++ showRules rs
+
+def showSigner (s : Signer) : String :=
+  hexW 40 s.account ++ s!" {s.scopes} {s.allowedContracts.length}"
+    ++ String.join (s.allowedContracts.map fun h => " " ++ hexW 40 h)
+    ++ s!" {s.allowedGroups.length}" ++ String.join (s.allowedGroups.map fun k => " " ++ hexW 66 k)
+    ++ s!" {s.rules.length}" ++ showRules s.rules
+
 def step (tbl : Array Env) (ws : List String) : Array Env × String :=
   match ws with
   | ["case", k] => (#[], s!"case {k}")
@@ -155,6 +167,17 @@ def step (tbl : Array Env) (ws : List String) : Array Env × String :=
       let (ss, r) ← pCounted pSigner r
       if r.isEmpty then pure (showRes (checkWitness e ss h)) else none) with
     | some s => (tbl, s)
+    | none => (tbl, "bad-op")
+  | "adm" :: d :: rest =>
+    match d.toNat?, pCond rest with
+    | some d, some (c, []) => (tbl, if admit c d then "ok" else "err")
+    | _, _ => (tbl, "bad-op")
+  | ["decs", h] =>
+    match Hex.decode h with
+    | some bs =>
+      match decodeSigner decKeyCompressed bs with
+      | some (sg, r) => (tbl, s!"ok {showSigner sg} {Hex.encode r}")
+      | none => (tbl, "err")
     | none => (tbl, "bad-op")
   | ["dec", d, h] =>
     match d.toNat?, Hex.decode h with
